@@ -562,6 +562,23 @@ theorem switch_agrees_operand (dbg : Bool) (v : IrValue) (x : U32) (branches : L
   rw [hb]
   exact switch_agrees dbg _ v _ branches default s (by rw [hx]; rfl) hs
 
+/-! ### calls: arguments are bound positionally, like the CLIF call -/
+
+/-- **Call argument passing.** The evaluator's `Call` arm binds the callee's i-th parameter to the
+    i-th argument operand — exactly the pairs the compiled call binds (the code generator pushes the
+    arguments in order; a CLIF call is positional) — for every parameter list and argument list. -/
+theorem call_binds_positionally {α : Type} (params : List Nat) (args : List α) :
+    eval_Call_bindings (some params) args = cg_Call_bindings params args
+    ∧ ∀ i (hp : i < params.length) (ha : i < args.length),
+        (eval_Call_bindings (some params) args)[i]? = some (params[i], args[i]) := by
+  refine ⟨rfl, ?_⟩
+  intro i hp ha
+  simp [eval_Call_bindings, ROpt.flatten_iter, List.getElem?_zip_eq_some, hp, ha]
+
+/-- non-vacuity: three parameters, three distinct arguments. -/
+example : eval_Call_bindings (some [10, 11, 12]) ["a", "b", "c"] = [(10, "a"), (11, "b"), (12, "c")] := by
+  decide
+
 /-! ### summary and non-vacuity -/
 
 /-- **T2 `memory_checked`.** Every access through the evaluator's memory either panics or is
